@@ -88,7 +88,10 @@ fn check(ctx: &Ctx, c: &Case) -> PResult {
             ));
         }
         ctx.nontrivial_json(c);
-        ctx.sample(cls, || json!({"ops": c.ops.iter().map(|o| o.name()).collect::<Vec<_>>(), "rows": la.rows.len()}));
+        ctx.sample(&format!("{cls}: ends with {}", c.ops.last().map(|o| o.name()).unwrap_or("")), || {
+            json!({"ops": c.ops.iter().map(|o| o.name()).collect::<Vec<_>>(), "rows": la.rows.len(),
+                   "arbitrary_inputs": c.inputs.iter().take(4).map(|x| crate::fe::fe_short(&x.0)).collect::<Vec<_>>()})
+        });
     }
     if let (Ok(_), Err(e)) = (&a, &b) {
         ctx.label(&format!("error: {}", e.split(|ch: char| !ch.is_alphanumeric()).next().unwrap_or("")));
